@@ -40,3 +40,13 @@ static const uint8_t FUZZ_KEYA[16] = {0x10, 0x21, 0x32, 0x43, 0x54, 0x65, 0x76, 
 // the base file of a tamper case: built by the independent format specification, or (toolbase) written by
 // execute_encrypt itself in a forked child under the canonical schedule; empty if that encryption failed
 bytes base_file(const EncCase &e, bool toolbase);
+
+// One operation (verify with an output stream supplied, or decrypt) in its own forked child, canonical
+// schedule, with the n-th allocation of the code under test failing once (n = -1: count only).
+struct FaultRun
+{
+  ChildStatus st = CH_OK;
+  std::string detail;
+  wapi::OpOut o;
+};
+FaultRun run_faulted(bool is_decrypt, const bytes &file, const bytes &key, const EncCase &e, long n);
